@@ -162,6 +162,9 @@ pub struct AdpHistory {
     pub batched: bool,
     /// drain the top stream after every operation (C14 "checked after every single operation")
     pub eager: bool,
+    /// poll with one and the same waker for the whole history (instead of a fresh one per poll): a
+    /// stream that skips re-registration for a waker it has seen before is only visible this way
+    pub same_waker: bool,
     pub ops: Vec<AOp>,
 }
 
@@ -176,6 +179,9 @@ impl AdpHistory {
             chain.join("."),
             if self.eager { "[drain after every op]" } else { "[lazy polls]" }
         )];
+        if self.same_waker {
+            v[0].push_str(" [one waker for all polls]");
+        }
         v.extend(self.ops.iter().map(|o| o.show()));
         v
     }
@@ -627,7 +633,9 @@ struct Oracle<'a> {
     limit_seen: Vec<Option<usize>>,
     announced: Vec<Vec<Option<usize>>>,
     armed: Vec<Option<Armed>>,
-    truncs: Vec<VecDeque<(usize, Vec<u32>)>>,
+    /// per sort stage: the Truncates its input delivered since it last consumed an item:
+    /// (length, tags surviving below, tags removed below)
+    truncs: Vec<VecDeque<(usize, Vec<u32>, Vec<u32>)>>,
     /// C13: replica after each batch, per tap; and the lower bounds of the last match
     states: Vec<Vec<Vec<Item>>>,
     match_state: Vec<usize>,
@@ -638,6 +646,7 @@ struct Oracle<'a> {
     src_alive: bool,
     facts: AFacts,
     stop_for_known: bool,
+    removed_by_truncate: Vec<u32>,
 }
 
 fn stage_tags(spec: &Stage, batched: bool) -> &'static str {
@@ -663,6 +672,27 @@ impl<'a> Oracle<'a> {
         self.known.has(self.prop, sig) || !owners.contains(&self.prop)
     }
 
+    /// The window of an armed F4 recognition closes (the stage consumed a new input or limit, or the
+    /// drain ended). The known finding is exactly "(old-new) PopFronts"; any other number of surplus
+    /// PopFronts is a different fault and is reported.
+    fn disarm(&mut self, k: usize) -> Result<(), Div> {
+        if let Some(a) = self.armed[k].take() {
+            if a.seen > a.apply_first && a.seen != a.total {
+                return self.div(
+                    stage_tags(&self.h.chain[k - 1], self.h.batched),
+                    format!(
+                        "stage {k} ({}) emitted {} PopFronts for a limit decrease that should pop {} (the known finding is exactly {})",
+                        self.h.chain[k - 1].show(),
+                        a.seen,
+                        a.apply_first,
+                        a.total
+                    ),
+                );
+            }
+        }
+        Ok(())
+    }
+
     fn param_now(&self, k: usize) -> Option<usize> {
         *self.announced[k].last().unwrap()
     }
@@ -678,7 +708,7 @@ impl<'a> Oracle<'a> {
                     let k = e.tap;
                     self.facts.param_consumed += 1;
                     let spec = self.h.chain[k - 1];
-                    self.armed[k] = None;
+                    self.disarm(k)?;
                     if spec.is_tail() && self.suppress(SIG_F4) {
                         let old = self.limit_seen[k].unwrap_or(0);
                         let len = self.replicas[k - 1].len();
@@ -713,8 +743,10 @@ impl<'a> Oracle<'a> {
                         return self.div("C08|C09|C10|C11|C12", format!("tap {k} yielded an item after its end"));
                     }
                     if k + 1 <= self.n {
-                        // the stage above consumed a new input: an armed limit change is over
-                        self.armed[k + 1] = None;
+                        // the stage above consumed a new input: an armed limit change is over, and
+                        // Truncates of earlier inputs that were not answered by a Truncate are stale
+                        self.disarm(k + 1)?;
+                        self.truncs[k + 1].clear();
                     }
                     if ds.is_empty() {
                         return if k == 0 {
@@ -779,18 +811,35 @@ impl<'a> Oracle<'a> {
                         return Ok(()); // surplus pop: not applied, the replica stays at the oracle view
                     }
                 } else {
-                    self.armed[k] = None;
+                    self.disarm(k)?;
                 }
             }
         }
         // --- known finding F6: Sort forwards Truncate verbatim
         if k >= 1 && self.h.chain[k - 1].is_sort() {
             if let D::Truncate(m) = d {
-                if let Some((n, tags)) = self.truncs[k].pop_front() {
-                    if n == *m && *m <= self.replicas[k].len() {
-                        let mut kept: Vec<u32> = self.replicas[k][..*m].iter().map(|i| i.id).collect();
-                        kept.sort_unstable();
-                        if kept != tags && self.suppress(SIG_F6) {
+                if *m <= self.replicas[k].len() {
+                    let mut removed_here: Vec<u32> = self.replicas[k][*m..].iter().map(|i| i.id).collect();
+                    removed_here.sort_unstable();
+                    // input Truncates whose removed elements have all left the view already were
+                    // answered in some other way (e.g. by Removes): they are not what this is about
+                    let view_tags: std::collections::HashSet<u32> = self.replicas[k].iter().map(|i| i.id).collect();
+                    while let Some((_, _, removed)) = self.truncs[k].front() {
+                        if removed.iter().any(|t| view_tags.contains(t)) {
+                            break;
+                        }
+                        self.truncs[k].pop_front();
+                    }
+                    // the oldest unanswered input Truncate is the one this output answers
+                    let front = self.truncs[k].front().map(|(n, _, removed)| (*n, *removed == removed_here));
+                    match front {
+                        // it removes exactly the elements that were removed below: right
+                        Some((_, true)) => {
+                            self.truncs[k].pop_front();
+                        }
+                        // same length, other elements: forwarded verbatim (F6)
+                        Some((n, false)) if n == *m && self.suppress(SIG_F6) => {
+                            let (_, tags, _) = self.truncs[k].pop_front().unwrap();
                             self.facts.known.push(SIG_F6);
                             // what the adapter's own buffer holds: the previous view without the
                             // elements that did not survive below
@@ -801,9 +850,14 @@ impl<'a> Oracle<'a> {
                             }
                             return Ok(());
                         }
+                        _ => {}
                     }
                 }
             }
+        }
+        if let D::Truncate(n) = d {
+            self.removed_by_truncate =
+                if *n <= self.replicas[k].len() { self.replicas[k][*n..].iter().map(|i| i.id).collect() } else { vec![] };
         }
         if let Err(e) = d.checked_apply(&mut self.replicas[k]) {
             return if k == 0 {
@@ -820,7 +874,9 @@ impl<'a> Oracle<'a> {
             if let D::Truncate(n) = d {
                 let mut tags: Vec<u32> = self.replicas[k].iter().map(|i| i.id).collect();
                 tags.sort_unstable();
-                self.truncs[k + 1].push_back((*n, tags));
+                let mut removed = std::mem::take(&mut self.removed_by_truncate);
+                removed.sort_unstable();
+                self.truncs[k + 1].push_back((*n, tags, removed));
             }
         }
         // C15: a fixed-limit Head/Tail view never exceeds its limit, after every single diff
@@ -906,6 +962,9 @@ impl<'a> Oracle<'a> {
                 format!("source replica {:?} != contents {:?} at a quiescent point", vals(&self.replicas[0]), vals(contents)),
             );
         }
+        for k in 1..=self.n {
+            self.disarm(k)?;
+        }
         self.check_views("at a quiescent point")?;
         for q in &mut self.truncs {
             q.clear();
@@ -914,10 +973,14 @@ impl<'a> Oracle<'a> {
     }
 
     fn check_views(&mut self, when: &str) -> Result<(), Div> {
+        let at_end = when.starts_with("at the end");
         for k in 1..=self.n {
             let spec = self.h.chain[k - 1];
             let p = if spec.dynamic() { self.param_now(k) } else { self.limit_seen[k] };
-            if !conforms(&spec, p, &self.replicas[k - 1], &self.replicas[k]) {
+            // the properties speak about Pending points; when the stream ends, a limit announced after
+            // the last Pending need not have been consumed: the last consumed one is accepted as well
+            let ok_consumed = at_end && spec.dynamic() && conforms(&spec, self.limit_seen[k], &self.replicas[k - 1], &self.replicas[k]);
+            if !ok_consumed && !conforms(&spec, p, &self.replicas[k - 1], &self.replicas[k]) {
                 return self.div(
                     stage_tags(&spec, self.h.batched),
                     format!(
@@ -997,6 +1060,7 @@ fn run_inner(h: &AdpHistory, prop: &str, known: &Known) -> Result<AFacts, Div> {
         src_alive: true,
         facts: AFacts::default(),
         stop_for_known: false,
+        removed_by_truncate: vec![],
     };
     // construction may already have consumed events (DynPartsPolled): the initial values of that
     // stage are its view *after* those; replay the log for the taps below it first.
@@ -1026,18 +1090,22 @@ fn run_inner(h: &AdpHistory, prop: &str, known: &Known) -> Result<AFacts, Div> {
         }
     }
 
-    let mut last_pending: Option<Arc<FlagWaker>> = None;
+    // (flag of the last Pending poll, its wake count at that poll)
+    let mut last_pending: Option<(Arc<FlagWaker>, u64)> = None;
     let mut top_ended = false;
+    let shared_waker = flag_waker();
+    let same_waker = h.same_waker;
 
     // one poll of the top stream; returns Some(true) = item, Some(false) = Pending, None = end
     let poll_top = |top: &mut Top,
                         o: &mut Oracle<'_>,
-                        last_pending: &mut Option<Arc<FlagWaker>>,
+                        last_pending: &mut Option<(Arc<FlagWaker>, u64)>,
                         top_ended: &mut bool,
                         ob: &Option<ObservableVector<T>>,
                         fin: &Option<Vec<Item>>|
      -> Result<Option<bool>, Div> {
-        let (flag, w) = flag_waker();
+        let (flag, w) = if same_waker { (shared_waker.0.clone(), shared_waker.1.clone()) } else { flag_waker() };
+        let wakes_before = flag.wakes.load(std::sync::atomic::Ordering::SeqCst);
         let mut cx = Context::from_waker(&w);
         let r = catch_unwind(AssertUnwindSafe(|| match top {
             Top::U(s) => s.as_mut().poll_next(&mut cx).map(|o| o.is_some()),
@@ -1055,9 +1123,11 @@ fn run_inner(h: &AdpHistory, prop: &str, known: &Known) -> Result<AFacts, Div> {
             }
         };
         // C14: never ready again without the waker of the last Pending poll having been woken
-        if let Some(f) = last_pending.as_ref() {
+        if let Some((f, at)) = last_pending.as_ref() {
             o.facts.wake_checks += 1;
-            if r.is_ready() && !f.woken() {
+            // (wake count sampled before this poll: a wake during the poll itself does not count)
+            let woken_since = if same_waker { wakes_before > *at } else { f.woken() };
+            if r.is_ready() && !woken_since {
                 return Err(Div {
                     prop: "C14",
                     what: "the stream became ready although the waker of its last Pending poll was never woken".into(),
@@ -1109,7 +1179,8 @@ fn run_inner(h: &AdpHistory, prop: &str, known: &Known) -> Result<AFacts, Div> {
                 }
                 let c = contents(ob.as_ref().unwrap());
                 o.quiescent(&c)?;
-                *last_pending = Some(flag);
+                let at = flag.wakes.load(std::sync::atomic::Ordering::SeqCst);
+                *last_pending = Some((flag, at));
                 Ok(Some(false))
             }
         }
@@ -1203,8 +1274,8 @@ fn run_inner(h: &AdpHistory, prop: &str, known: &Known) -> Result<AFacts, Div> {
         if h.eager && !top_ended {
             let before = last_pending.clone();
             drain!(0);
-            if let (Some(f), AOp::Param(..)) = (before, op) {
-                if f.woken() {
+            if let (Some((f, at)), AOp::Param(..)) = (before, op) {
+                if f.wakes.load(std::sync::atomic::Ordering::SeqCst) > at {
                     o.facts.woken_by_param += 1;
                 }
             }
